@@ -57,3 +57,31 @@ Proof.
     rewrite F. destruct (N.leb_spec 1 (h_bps h)); [|lia]. destruct (N.leb_spec (h_bps h) 32); [|lia]. reflexivity.
   - unfold sem_frame, verbatim_frame. cbn [f_hdr f_subs]. rewrite Esem. apply sem_channels_indep'. exact Ha.
 Qed.
+
+(* ---- prediction is lossless by construction: for ANY predictor (coefficients, shift), the residual
+   signal r[i] = x[i] - (sum_j c[j] * x[i-1-j]) >> shift stands for x exactly.  So every signal has a
+   FIXED / LPC tree for every choice of predictor; only the range rules (wf, spec) restrict the choice. *)
+Fixpoint resid (coeffs : list Z) (shift : Z) (done_rev todo : list Z) : list Z :=
+  match todo with
+  | [] => []
+  | v :: rest => (v - dot done_rev coeffs / 2 ^ shift)%Z :: resid coeffs shift (v :: done_rev) rest
+  end.
+
+Theorem prediction_lossless coeffs shift : forall todo done_rev,
+  predict_z coeffs shift done_rev (resid coeffs shift done_rev todo) = rev done_rev ++ todo.
+Proof.
+  induction todo as [|v rest IH]; intros done_rev; cbn [resid predict_z].
+  - rewrite app_nil_r. reflexivity.
+  - replace (v - dot done_rev coeffs / 2 ^ shift + dot done_rev coeffs / 2 ^ shift)%Z with v by lia.
+    rewrite IH. cbn [rev]. rewrite <- app_assoc. reflexivity.
+Qed.
+
+Corollary lpc_body_stands_for_signal order warm rest prec shift coefs r :
+  length warm = N.to_nat order ->
+  residual_values r = resid coefs (Z.of_N shift) (rev warm) rest ->
+  sem_body (N.of_nat (length (warm ++ rest))) (BLpc order warm prec shift coefs r) = warm ++ rest.
+Proof. intros _ Hr. cbn [sem_body]. rewrite Hr, prediction_lossless, rev_involutive. reflexivity. Qed.
+Corollary fixed_body_stands_for_signal order warm rest r :
+  residual_values r = resid (fixed_coeffs order) 0 (rev warm) rest ->
+  sem_body (N.of_nat (length (warm ++ rest))) (BFixed order warm r) = warm ++ rest.
+Proof. intros Hr. cbn [sem_body]. rewrite Hr, prediction_lossless, rev_involutive. reflexivity. Qed.
